@@ -75,6 +75,15 @@ def interleave(d, collide, steps, third=False, same=False, built=False):
     def pre(x, y, sched):
         if not (len(x) <= 2 and len(y) <= 2 and len(sched) == steps):
             return False
+        if strs_built:
+            if len(x) > 1 or len(y) > 1:          # catalogue strings are enumerated by index: one element per validator keeps this small
+                return False
+            for e in x:
+                if not (0 <= e < len(STRS)):
+                    return False
+            for e in y:
+                if not (0 <= e < len(STRS)):
+                    return False
         if strs:
             for e in x:
                 if len(e) > 1:
@@ -89,8 +98,8 @@ def interleave(d, collide, steps, third=False, same=False, built=False):
             # instances assembled from scalars inside the harness: the element objects keep their identity across iterators
             # (proxies of symbolic containers are re-created on access), strings come from a concrete catalogue (hashable natively)
             if strs_built:
-                x = [pick(STRS, i % len(STRS)) for i in x]
-                y = [pick(STRS, i % len(STRS)) for i in y]
+                x = [pick(STRS, i) for i in x]
+                y = [pick(STRS, i) for i in y]
             else:
                 x = [e for e in x]
                 y = [e for e in y]
